@@ -231,6 +231,7 @@ ManifestPutT(layout, s) ==                                                      
     [] OTHER -> {BlobFile(layout, Dig("valid"))}                                 \* ref digest must equal the computed one
 ManifestDeleteT(layout, s) ==                                                    \* manifest.go: ManifestDelete
   IF s.wm = "none" THEN Guarded(layout, RefD(s))                                 \* manifestGet refuses first
+  ELSE IF s.wm = "hsubject" /\ ~Validate(Dig(s.h)) THEN {}                       \* referrerDelete: FallbackTag cannot parse the subject
   ELSE IF DeleteValidates THEN Guarded(layout, RefD(s)) ELSE Unguarded(layout, RefD(s))
 CloseT(layout, s) == Guarded(layout, ContentD(s))                                \* close.go: marks via manifestGet; sweeps only ReadDir children
 CopyT(layout, s) == Guarded(layout, ContentD(s)) \cup Guarded(layout, RefD(s))   \* image.go copy: Manifest/Blob calls above
